@@ -195,7 +195,6 @@ func verifC03cOrthoRows(rows, cols int, q []float64, ld int) float64 {
 	return verifC03cMaxAbs(rows, rows, g, rows)
 }
 
-
 // verifC03cPads: the nine (quick) or 27 (full) combinations of three paddings from {0,1,3};
 // the nine form an orthogonal array (every pair of values occurs for every pair of operands).
 func verifC03cPads(name string) (p0, p1, p2 int) {
@@ -253,7 +252,7 @@ var verifC03cSVDJobs = [3]lapack.SVDJob{lapack.SVDNone, lapack.SVDStore, lapack.
 // verifC03cSVDShapes: tall shapes with m >= int(1.6*n) (paths 1-9), tall/square below
 // (path 10); the wide twins are obtained by transposition.
 var verifC03cSVDShapes = [][2]int{
-	{5, 3}, {3, 3}, {8, 5}, {5, 4}, {1, 1}, {3, 1}, {6, 5}, {7, 2}, {2, 2}, {8, 8},
+	{5, 3}, {3, 3}, {5, 4}, {8, 5}, {1, 1}, {3, 1}, {6, 5}, {7, 2}, {2, 2}, {8, 8},
 }
 
 // VerifC03_ConfigDgesvd: every jobU/jobVT in {None, Store, All}² (Overwrite is documented
@@ -268,11 +267,15 @@ func VerifC03_ConfigDgesvdDense() { verifC03cDgesvd(true) }
 
 func verifC03cDgesvd(dense bool) {
 	impl := Implementation{}
-	ns := verifParam("svdshapes", 4)
+	ns := verifParam("svdshapes", 3)
 	if dense {
-		ns = verifParam("svddense", 2)
+		ns = verifParam("svddense", 0)
+		if ns == 0 {
+			verifReach("end") // quick tier: switched off
+			return
+		}
 	}
-	sh := verifChoose("shape", 0, ns-1)
+	sh := verifChoose("shape", verifParam("svdlo", 0), ns-1)
 	m, n := verifC03cSVDShapes[sh][0], verifC03cSVDShapes[sh][1]
 	if verifChoose("wide", 0, 1) == 1 {
 		if m == n {
@@ -354,6 +357,7 @@ func verifC03cDgesvd(dense bool) {
 		return
 	}
 	verifAssert(ok, "Dgesvd: converged")
+	verifObserveF("s0", s[0])
 	verifAssert(work[0] >= float64(opt), "Dgesvd: work[0] on return is at least the queried optimum")
 	desc := true
 	for i := 0; i < mn; i++ {
@@ -419,10 +423,10 @@ var verifC03cSmallN = []int{1, 2, 3, 5, 8, 34}
 // verifC03cBlockCand appends both ends of the lwork classes off+nb*unit .. off+(nb+1)*unit-1
 // on which a routine derives the block size nb = (lwork-off)/unit arithmetically (such a
 // length cannot stay symbolic: nb becomes a stride of the scratch matrices). Quick: the
-// classes nb in {lo-1, lo, lo+1, hi-1, hi}; with the parameter "nbfull" every nb in lo-1..hi.
+// classes nb in {lo-1, lo, hi-1, hi}; with the parameter "nbfull" every nb in lo-1..hi.
 func verifC03cBlockCand(c []int, off, unit, lo, hi int) []int {
 	for nb := lo - 1; nb <= hi; nb++ {
-		if verifParam("nbfull", 0) == 0 && nb > lo+1 && nb < hi-1 {
+		if verifParam("nbfull", 0) == 0 && nb > lo && nb < hi-1 {
 			continue
 		}
 		c = append(c, off+nb*unit, off+(nb+1)*unit-1)
@@ -441,6 +445,9 @@ func VerifC03_ConfigDsyev() {
 	jobz := []lapack.EVJob{lapack.EVNone, lapack.EVCompute}[verifChoose("jobz", 0, 1)]
 	uplo := verifC03cUplos[verifChoose("uplo", 0, 1)]
 	pad := []int{0, 1, 3}[verifChoose("pad", 0, 2)]
+	if n > 32 && pad != 3 && verifParam("bigfull", 0) == 0 {
+		verifAssume(false) // quick tier: the order-34 cases only with padding 3
+	}
 	lda := n + pad
 	afull := verifC03cMat(n, n, lda, 7*n+1)
 	verifC03cSym(n, lda, afull)
@@ -477,6 +484,7 @@ func VerifC03_ConfigDsyev() {
 		return
 	}
 	verifAssert(ok, "Dsyev: converged")
+	verifObserveF("w0", w[0])
 	asc := true
 	for i := 1; i < n; i++ {
 		if !(w[i-1] <= w[i]) {
@@ -536,6 +544,9 @@ func VerifC03_ConfigDsytrd() {
 	impl.Dsytrd(uplo, n, verifC03cClone(a0), lda, dref, eref, tref, make([]float64, 1), 1)
 
 	orgMin := verifChoose("orgMin", 0, 1) == 1
+	if n > 32 && (pad != 3 || orgMin) && verifParam("bigfull", 0) == 0 {
+		verifAssume(false) // quick tier: the order-34 cases only with padding 3, Dorgtr at its optimum
+	}
 	a := verifC03cClone(a0)
 	d, e, tau := verifC03cBlank(1, n, n, 1e7), verifC03cBlank(1, n-1, n, 1e7)[:n-1], verifC03cBlank(1, n-1, n, 1e7)[:n-1]
 	big := opt + n + 5
@@ -1259,6 +1270,7 @@ func VerifC03_ConfigDgeev() {
 		return
 	}
 	verifAssert(first == 0, "Dgeev: converged")
+	verifObserveF("wr0", wr[0])
 	verifAssert(work[0] >= float64(opt), "Dgeev: work[0] on return is at least the queried optimum")
 	verifAssert(verifC03cPairs(wr, wi), "Dgeev: complex eigenvalues are adjacent conjugate pairs, positive imaginary part first")
 	sr, si := verifC03cEigSorted(wr, wi)
@@ -1305,14 +1317,20 @@ func VerifC03_ConfigDhseqrWork0() {
 }
 
 // VerifC03_ConfigBlockedBig (thorough tier): the blocked reductions whose crossover is
-// 128: Dgebrd 130x129 and 129x130, Dgehrd n = 130. lwork is case-split over the lower end
-// of the classes nb = 1 (unblocked: minimum), 2, 31, 32 (optimum) and optimum+1; the
+// 128: Dgebrd 130x129 and 129x130, Dgehrd n = 130 (parameter bigon = 1; needs max_steps
+// 4e8 in the run spec). lwork is case-split over
+// representatives of the classes unblocked (minimum+1), nb = 2 (lower end), nb = 31 (upper
+// end) and nb = 32 (optimum); the
 // result (a, d, e, tau) must agree to 1e-9 with the unblocked run (same reflectors in
 // exact arithmetic) whose identities are checked at small orders by the other harnesses.
 func VerifC03_ConfigBlockedBig() {
 	impl := Implementation{}
+	if verifParam("bigon", 0) == 0 {
+		verifReach("end") // quick tier: switched off
+		return
+	}
 	which := verifChoose("routine", 0, 2)
-	cls := verifChoose("class", 0, 4)
+	cls := verifChoose("class", 0, 3)
 	pad := 3
 	switch which {
 	case 0, 1:
@@ -1327,7 +1345,7 @@ func VerifC03_ConfigBlockedBig() {
 		aref := verifC03cClone(a0)
 		dr, er, tqr, tpr := make([]float64, mn), make([]float64, mn-1), make([]float64, mn), make([]float64, mn)
 		impl.Dgebrd(m, n, aref, lda, dr, er, tqr, tpr, make([]float64, lw0), lw0)
-		lwork := []int{lw0 + 1, (m + n) * 2, (m + n) * 31, (m + n) * 32, (m+n)*32 + 1}[cls]
+		lwork := []int{lw0 + 1, (m + n) * 2, (m+n)*32 - 1, (m + n) * 32}[cls]
 		a := verifC03cClone(a0)
 		d, e, tq, tp := make([]float64, mn), make([]float64, mn-1), make([]float64, mn), make([]float64, mn)
 		work := make([]float64, lwork)
@@ -1349,7 +1367,7 @@ func VerifC03_ConfigBlockedBig() {
 		anorm := verifC03cMaxAbs(n, n, a0, lda)
 		aref, tr := verifC03cClone(a0), make([]float64, n-1)
 		impl.Dgehrd(n, 0, n-1, aref, lda, tr, make([]float64, n), n)
-		lwork := []int{n + 1, tsize + n*2, tsize + n*31, tsize + n*32, tsize + n*32 + 1}[cls]
+		lwork := []int{n + 1, tsize + n*2, tsize + n*32 - 1, tsize + n*32}[cls]
 		a, tau := verifC03cClone(a0), make([]float64, n-1)
 		work := make([]float64, lwork)
 		panicked, _, msg := verifCatch(func() { impl.Dgehrd(n, 0, n-1, a, lda, tau, work, lwork) })
